@@ -130,6 +130,7 @@ type Exec struct {
 	calls     map[string]int
 	locked    map[string]bool
 	inCrit       bool
+	lastRand     Term
 	collectFacts bool
 	pureFacts    []Term
 	qFacts       [][]Term
@@ -901,7 +902,7 @@ func (x *Exec) havocConst(prefix, sort string) Term {
 
 func (x *Exec) havocHeapAll(st *State) {
 	for _, c := range x.compOrder {
-		if strings.HasPrefix(c, "G_const_") {
+		if strings.HasPrefix(c, "G_const_") || c == "Ghost_lastrand" {
 			continue
 		}
 		st.heap[c] = x.havocConst(c, x.comps[c])
